@@ -473,10 +473,15 @@ def execute(sc, ctx):
                 # an empty cadence has no object array to index; nothing the statement covers
                 continue
             ctx.hit("index_array_selection")
+            arg_snap = copy.deepcopy(arg)
             try:
                 res = cad[arg]
             except Exception as e:
                 exc = e
+            # the selector is the caller's object: unchanged by the selection (it may be used again later)
+            if not ctx.check(type(arg) is type(arg_snap) and np.array_equal(np.asarray(arg), np.asarray(arg_snap)), "args",
+                             "C18/%s/getarray/%s/selector_modified" % (cname, form), lambda: "selector now %r, was %r" % (arg, arg_snap)):
+                return
             if valid:
                 if exc is not None:
                     ctx.violation("list", "C18/%s/getarray/%s/raises:%s" % (cname, form, type(exc).__name__), repr(exc))
